@@ -129,7 +129,15 @@ def work(job):
         mod = importlib.import_module(modname)
         g = _loaded(True)
         case = {c.name: c for c in mod.cases(tier)}[case_name]
-        known = load_known(mod.PROPERTY)
+        known = [k for k in load_known(mod.PROPERTY) if fnmatch.fnmatch(case_name, k.get("case", "*"))]
+        if known:
+            # a listed finding only short-cuts the solver while the defect is still there: probe the real code first
+            try:
+                probe = run_concrete(modname, tier, [{"case": case_name, "inputs": None, "seed": seed * 77 + i} for i in range(4)])
+                names = [f["name"] for r in probe for f in r["failures"]]
+                known = [k for k in known if any(fnmatch.fnmatch(n, k.get("obligation", "*")) for n in names)]
+            except Exception:  # noqa
+                known = []
         funcs = set()
 
         def body():
